@@ -77,6 +77,9 @@ def make_relay(rtype, curve):
             res = r.protection_function(_net(ctx, i), "sc")
             out.append((res, r.tripped))
         (r1, trip1), (r2, trip2) = out
+        # the same device evaluated again at the smaller current, after it has seen the larger one: no memory of earlier evaluations
+        r1b = r.protection_function(_net(ctx, i1), "sc")
+        ctx.true("trip_decision_has_no_memory_of_earlier_evaluations", bool(r1b["trip_melt"]) == bool(r1["trip_melt"]))
         t1, t2 = r1["trip_melt_time_s"], r2["trip_melt_time_s"]
         ctx.eq("activation_value_is_switch_current", r1["activation_parameter_value"], i1)
         inf1 = isinstance(t1, float) and np.isinf(t1)
@@ -131,6 +134,10 @@ def make_fuse():
             net.characteristic = pd.DataFrame({"object": [char]})
             res = f.protection_function(net, "sc")
             out.append(res)
+        net = _net(ctx, i1)
+        net.characteristic = pd.DataFrame({"object": [char]})
+        again = f.protection_function(net, "sc")
+        ctx.true("melt_decision_has_no_memory_of_earlier_evaluations", bool(again["trip_melt"]) == bool(out[0]["trip_melt"]))
         t1, t2 = out[0]["trip_melt_time_s"], out[1]["trip_melt_time_s"]
         inf1 = isinstance(t1, float) and np.isinf(t1)
         inf2 = isinstance(t2, float) and np.isinf(t2)
